@@ -20,6 +20,10 @@ CHECKS = {
          "two seeded SimPool schedules, address-hash order) in two interpreters with different PYTHONHASHSEED; all signatures must agree with "
          "each other and the model; get_subgraphs checked to be an exact edge-closed partition",
          "deterministic simulation: one program under many seeded schedules (linear extensions, sub-graph dispatch, SimPool interleavings, hash seeds); signature equality + reference model"),
+ "C05": ("w1s", "3.C05", "histories of spec-set class definitions created through the real SpecSetMeta (implementations bound to one context, a "
+         "list of contexts or a helper datasource), every active context and outcome per implementation, evaluated by the real engine; "
+         "oracle: latest registered implementation for the active context supplies the spec, overridden and foreign-context implementations never run",
+         "deterministic simulation: generated registration histories x active context x outcome plan under seeded engine order; reference model of the resolution rule"),
  "C12": ("w1r", "3.C12", "generated rule sets (shared modules/keys/types, every return kind and constructor-argument shape, payloads around "
          "the size limit) under the real SingleEvaluator / InsightsEvaluator / JsonFormat, serial, incremental and on SimPool with seeded "
          "interleavings traced through evaluators.py; counting oracle: each rule in exactly the predicted bucket, entry fields, totals",
@@ -35,6 +39,7 @@ NA = [
   ("C20", "query evaluation is a pure function of (tree, query, options) (DESIGN.md section 5)"),
 ]
 ENGINES = {
+ "w1s": ("worlds/w1_specs.py", "W1s: spec-set registration histories through the real SpecSetMeta, evaluated by the real engine"),
  "w1r": ("worlds/w1_rules.py", "W1r: real evaluators/formatters over W1 programs with rich rule return plans; insights.get_pool -> SimPool"),
  "w1": ("worlds/w1_engine.py", "W1: real dr/plugins engine on generated component programs under SimPool / SimClock / SimSignal with a reference model"),
 }
